@@ -7,6 +7,8 @@ mod iterfam;
 mod compfam;
 mod rtfam;
 mod parsefam;
+mod opcode_gen;
+mod opcodefam;
 
 fn main() {
     common::install_panic_hook();
@@ -23,6 +25,7 @@ fn main() {
         "comp" => compfam::main(&args[2..]),
         "rt" => rtfam::main(&args[2..]),
         "parse" => parsefam::main(&args[2..]),
+        "opcode" => opcodefam::main(&args[2..]),
         f => {
             eprintln!("unknown family {}", f);
             std::process::exit(2);
